@@ -107,6 +107,13 @@ class Executor:
         self.raises = raises
         self.functions_run: set[str] = set()
         self.statements = 0
+        from .extent import Extents
+        self.extents = _shared_extents(project)
+        self.root: FuncInfo | None = None
+
+    def in_extent(self, f: FuncInfo) -> bool:
+        """f is the function the run started at, or a private helper that exists only for it (inlined by the executor)"""
+        return self.root is not None and any(f is x for x in self.extents.of(self.root))
 
     # ------------------------------------------------------------ exceptions
     def exc_class(self, fn: FuncInfo, node: ast.expr) -> list[str]:
@@ -213,6 +220,8 @@ class Executor:
     def run(self, fn: FuncInfo, state: Any, hole: Callable[[Any], set[Out]] | None = None, depth: int = 0) -> set[Out]:
         """Outcomes of the body of FN from STATE.  `next` outcomes are converted to `return`."""
         self.functions_run.add(fn.qualname)
+        if depth == 0:
+            self.root = fn
         ctx = _Ctx(fn=fn, hole=hole, depth=depth, handling=None, binds={})
         outs = self.block(ctx, fn.node.body, {(state, None)})
         res: set[Out] = set()
@@ -255,7 +264,18 @@ class Executor:
                 raise Unsupported(f'{ctx.fn.module.relpath}:{call.lineno}: tracked call '
                                   f'{dotted(call.func)} inside lambda/comprehension/short-circuit')
             nxt = set()
+            helper = self._helper(ctx, call)
             for st in cur:
+                if helper is not None:
+                    # a private helper that exists only for the root function: its body is executed in place
+                    for o in self.run(helper, st, depth=ctx.depth + 1):
+                        if o.kind == 'return':
+                            nxt.add(o.state)
+                        elif o.kind == 'raise':
+                            res.add(Out('raise', o.state, o.exc, pend))
+                        else:
+                            raise Unsupported(f'{helper.loc}: {o.kind} out of an inlined helper')
+                    continue
                 for kind, st2, exc in self.sem.call(self, ctx.fn, call, st):
                     if kind == 'next':
                         nxt.add(st2)
@@ -265,6 +285,16 @@ class Executor:
         for st in cur:
             res.add(Out('next', st, None, pend))
         return res
+
+    def _helper(self, ctx: '_Ctx', call: ast.Call) -> FuncInfo | None:
+        if self.root is None or ctx.depth >= self.MAX_INLINE or ctx.hole is not None and False:
+            return None
+        if not getattr(self.sem, 'inline_helpers', True):
+            return None
+        h = self.extents.helper_for_call(self.root, ctx.fn, call)
+        if h is None or h is ctx.fn:
+            return None
+        return h
 
     def _then(self, outs: set[Out], k: Callable[[Any, Any], set[Out]]) -> set[Out]:
         res: set[Out] = set()
@@ -559,6 +589,17 @@ class Executor:
             return res
 
         return self._then(outs, k)
+
+
+_EXTENTS: dict[int, Any] = {}
+
+
+def _shared_extents(project: Project):
+    from .extent import Extents
+    e = _EXTENTS.get(id(project))
+    if e is None:
+        e = _EXTENTS[id(project)] = Extents(project)
+    return e
 
 
 @dataclass
